@@ -161,6 +161,48 @@ func cmdCheck(args []string) int {
 			extra = append(extra, f(E, ps)...)
 		}
 	}
+	// `observer`: the function writes only memory it allocated itself (no field of its receiver, nothing reachable from
+	// an argument, no package-level memory): decided on the write summary of the provenance analysis
+	{
+		var names []string
+		for n := range funcs {
+			names = append(names, n)
+		}
+		sort.Strings(names)
+		for _, n := range names {
+			ct := S.Contracts[n]
+			if ct == nil || !ct.Observer {
+				continue
+			}
+			fn := E.P.Funcs[n]
+			if fn == nil {
+				continue
+			}
+			sm := E.SummaryOf(fn)
+			var bad []string
+			if sm == nil {
+				bad = append(bad, "no write summary")
+			} else {
+				for root, keys := range sm.Mod {
+					if root == rootFresh {
+						continue
+					}
+					for k := range keys {
+						where := fmt.Sprintf("parameter %d", root)
+						if root == rootGlob {
+							where = "package-level memory"
+						} else if root == rootUnknown {
+							where = "unknown memory"
+						}
+						bad = append(bad, k+" (rooted at "+where+")")
+					}
+				}
+			}
+			sort.Strings(bad)
+			extra = append(extra, &ExtraResult{Name: n + "/frame:observer", Kind: "frame", OK: len(bad) == 0, By: "provenance",
+				Detail: "declared observer, but may write: " + strings.Join(bad, ", "), Note: "no-failing-input-found"})
+		}
+	}
 	if usesCnt {
 		extra = append(extra, lemmaProofs(CntLemmaProofs)...)
 	}
